@@ -497,7 +497,7 @@ class Recorder:
                 "hs": self.a.conf.hash_size}
 
 
-def write_traces(path, recs):
+def write_traces(path, recs, known=None):
     """several executions (same nd, np) in one file; header constants are the union over executions"""
     vlen, names = {}, set()
     for r in recs:
@@ -506,6 +506,8 @@ def write_traces(path, recs):
     hdr = dict(recs[0].header())
     hdr["vlen"] = vlen if vlen else {"__none__": 0}
     hdr["names"] = sorted(names, key=lambda s: s.encode("latin1"))
+    if known:
+        hdr["known"] = [list(k) for k in known]
     n = 0
     with open(path, "w") as f:
         for i, r in enumerate(recs):
